@@ -36,16 +36,17 @@ def _history(opb, ops):
     for (kind, a, b) in ops:
         n0 = F.number_of_variables()
         ids = None
+        grp = None
         if kind == 0:
             ids = [F.new_variable()]
         elif kind == 1:
-            ids = list(F.new_block(a, b))
+            grp = F.new_block(a, b)
         elif kind == 2:
-            ids = list(F.new_combinations(a + 1, b))
+            grp = F.new_combinations(a + 1, b)
         elif kind == 3:
-            ids = list(F.new_mapping(a, b))
+            grp = F.new_mapping(a, b)
         elif kind == 4:
-            ids = list(F.new_binary_mapping(a + 1, b + 1))
+            grp = F.new_binary_mapping(a + 1, b + 1)
         elif kind == 5:
             F.add_clause([n0 + a + 1, -(n0 + 1)] if b else [-(n0 + a + 1)])
             if F.number_of_variables() != n0 + a + 1:
@@ -82,12 +83,21 @@ def _history(opb, ops):
             for u in range(1, a + 1):
                 if b:
                     G.add_edge(u, u + 1)
-            ids = list(F.new_graph_edges(G))
+            grp = F.new_graph_edges(G)
         else:
             B = GR.BipartiteGraph(a + 1, 2)
             for u in range(1, a + 2):
                 B.add_edge(u, 1 + (u + b) % 2)
-            ids = list(F.new_sparse_mapping(B))
+            grp = F.new_sparse_mapping(B)
+        if grp is not None:
+            ids = list(grp)
+            # the identifiers the group hands out when it is USED are its own (not those of an earlier group)
+            if kind == 2 and b == 0:
+                used = [grp()]
+            else:
+                used = list(grp())
+            if sorted(used) != ids or sorted(grp.to_dict().values()) != ids:
+                return False
         n1 = F.number_of_variables()
         if n1 < n0:
             return False
